@@ -58,6 +58,9 @@ def gen_layer(rng):
                 # the sub-function as CODED-CONST or as PHYS-CONST: both belong to the constant prefix
                 req_ps.append(u8(sub) if rng.random() < 0.6 else
                               cc.param(None, dict(k="physconst", dop=cc.simple(cc.std(cc.BUINT, 8)), v=sub)))
+        if req_ps and rng.random() < 0.15:
+            # reserved bits directly behind the constants: a peer may set them, they do not belong to the constant prefix
+            req_ps.append(cc.param(None, dict(k="reserved", bl=8)))
         # payload
         for _ in range(rng.choice([0, 0, 1, 1, 2])):
             req_ps.append(cc.param(None, dict(k="value", dop=cc.simple(cc.std(cc.BUINT, rng.choice([8, 8, 16]))), dflt=None)))
@@ -79,6 +82,8 @@ def gen_layer(rng):
                 # on with a constant: the constant prefix of the response ends in front of the mirrored variable bytes
                 ps.append(cc.param(None, dict(k="matchreq", rqpos=2, len=rng.choice([1, 2]))))
                 ps.append(u8(rng.choice([0x10, 0x00])))
+            if rng.random() < 0.15:
+                ps.append(cc.param(None, dict(k="reserved", bl=8)))
             for _ in range(rng.choice([0, 1, 1])):
                 ps.append(cc.param(None, dict(k="value", dop=cc.simple(cc.std(cc.BUINT, rng.choice([8, 16]))), dflt=None)))
             cid += 1
@@ -116,6 +121,85 @@ def gen_layer(rng):
             g["sn"] = rng.choice(free)     # (short names stay unique among the global negative responses)
         gnrs.append(g)
     return dict(services=services, gnrs=gnrs)
+
+
+def reserved_set(params, pdu):
+    """the PDU with the bytes of its RESERVED parameters set to FF / 80 (sequential one-byte layout of the generator)"""
+    off, out = 0, []
+    for p in params:
+        kd = p["kind"]
+        if p["bytepos"] is not None or p["bitpos"] is not None:
+            return []
+        if kd["k"] == "reserved" and off < len(pdu):
+            out += [pdu[:off] + bytes([v]) + pdu[off + 1:] for v in (0xFF, 0x80)]
+        if kd["k"] in ("coded", "nrc"):
+            off += kd["dct"]["bl"] // 8
+        elif kd["k"] == "reserved":
+            off += kd["bl"] // 8
+        elif kd["k"] == "matchreq":
+            off += kd["len"]
+        elif kd["k"] == "physconst" or kd["k"] == "value":
+            off += kd["dop"]["dct"]["bl"] // 8
+        else:
+            return out
+    return out
+
+
+def inherited_gnr_probe(ck):
+    """oracle only: what a layer attributes a message to depends on that layer alone, not on which other layer decoded
+    something before.  A base variant without global negative responses, an ECU variant which inherits its service and
+    defines a global negative response, a second ECU variant with another one: every order of first uses."""
+    import hier_common as hc
+    import itertools
+    u8 = '<DIAG-CODED-TYPE BASE-DATA-TYPE="A_UINT32" xsi:type="STANDARD-LENGTH-TYPE"><BIT-LENGTH>8</BIT-LENGTH></DIAG-CODED-TYPE>'
+    cst = lambda n, v: f'<PARAM xsi:type="CODED-CONST"><SHORT-NAME>{n}</SHORT-NAME><CODED-VALUE>{v}</CODED-VALUE>{u8}</PARAM>'
+    val = lambda n: f'<PARAM xsi:type="VALUE"><SHORT-NAME>{n}</SHORT-NAME><DOP-REF ID-REF="BV.u8"/></PARAM>'
+    gnr = lambda lid, code: (f'<GLOBAL-NEG-RESPONSES><GLOBAL-NEG-RESPONSE ID="{lid}.gnr"><SHORT-NAME>gnr</SHORT-NAME><PARAMS>{cst("sid", 0x7F)}'
+                             f'{val("rq")}{cst("code", code)}</PARAMS></GLOBAL-NEG-RESPONSE></GLOBAL-NEG-RESPONSES>')
+    pref = '<PARENT-REFS><PARENT-REF ID-REF="BV" DOCREF="DLC" DOCTYPE="CONTAINER" xsi:type="BASE-VARIANT-REF"/></PARENT-REFS>'
+    doc = ('<?xml version="1.0" encoding="UTF-8"?><ODX MODEL-VERSION="2.2.0" xmlns:xsi="http://www.w3.org/2001/XMLSchema-instance">'
+           '<DIAG-LAYER-CONTAINER ID="DLC"><SHORT-NAME>DLC</SHORT-NAME><BASE-VARIANTS><BASE-VARIANT ID="BV"><SHORT-NAME>BV</SHORT-NAME>'
+           f'<DIAG-DATA-DICTIONARY-SPEC><DATA-OBJECT-PROPS><DATA-OBJECT-PROP ID="BV.u8"><SHORT-NAME>u8</SHORT-NAME><COMPU-METHOD><CATEGORY>IDENTICAL</CATEGORY></COMPU-METHOD>{u8}'
+           '<PHYSICAL-TYPE BASE-DATA-TYPE="A_UINT32"/></DATA-OBJECT-PROP></DATA-OBJECT-PROPS></DIAG-DATA-DICTIONARY-SPEC>'
+           '<DIAG-COMMS><DIAG-SERVICE ID="BV.read"><SHORT-NAME>read</SHORT-NAME><REQUEST-REF ID-REF="BV.rq"/><POS-RESPONSE-REFS>'
+           '<POS-RESPONSE-REF ID-REF="BV.pr"/></POS-RESPONSE-REFS></DIAG-SERVICE></DIAG-COMMS>'
+           f'<REQUESTS><REQUEST ID="BV.rq"><SHORT-NAME>rq</SHORT-NAME><PARAMS>{cst("sid", 0x22)}{val("id")}</PARAMS></REQUEST></REQUESTS>'
+           f'<POS-RESPONSES><POS-RESPONSE ID="BV.pr"><SHORT-NAME>pr</SHORT-NAME><PARAMS>{cst("sid", 0x62)}{val("id")}</PARAMS></POS-RESPONSE></POS-RESPONSES>'
+           '</BASE-VARIANT></BASE-VARIANTS><ECU-VARIANTS>'
+           f'<ECU-VARIANT ID="EV1"><SHORT-NAME>EV1</SHORT-NAME>{gnr("EV1", 0x31)}{pref}</ECU-VARIANT>'
+           f'<ECU-VARIANT ID="EV2"><SHORT-NAME>EV2</SHORT-NAME>{gnr("EV2", 0x78)}{pref}</ECU-VARIANT>'
+           '</ECU-VARIANTS></DIAG-LAYER-CONTAINER></ODX>')
+    msgs = [bytes([0x22, 5]), bytes([0x62, 5]), bytes([0x7F, 0x22, 0x31]), bytes([0x7F, 0x22, 0x78]), bytes([0x7F, 0x22, 0x10])]
+    calls = [(ln, m) for ln in ("BV", "EV1", "EV2") for m in msgs]
+
+    def obs(layer, m):
+        r, e, _ = cc.guarded(lambda: layer.decode(m))
+        if e is not None:
+            return type(e).__name__
+        return sorted((x.service.short_name, x.coding_object.short_name, tuple(sorted(x.param_dict.items()))) for x in r)
+
+    try:
+        alone = {}
+        for ln, m in calls:
+            db = hc.load_docs([doc])
+            alone[(ln, m)] = obs({d.short_name: d for d in db.diag_layers}[ln], m)
+    except Exception as e:  # noqa
+        ck.note_broken(f"the inherited-service document does not load: {type(e).__name__}: {e}")
+        return
+    for first in ("BV", "EV1", "EV2"):
+        for order in (calls, calls[::-1]):
+            db = hc.load_docs([doc])
+            lay = {d.short_name: d for d in db.diag_layers}
+            seq = [c for c in order if c[0] == first] + [c for c in order if c[0] != first]
+            for ln, m in seq:
+                ck.count(("inherited-gnr", first, order is calls, ln, m))
+                got = obs(lay[ln], m)
+                if got != alone[(ln, m)]:
+                    ck.violation(f"layer {ln} attributes message {m.hex()} to {got} after other layers of the database (first {first}) "
+                                 f"decoded before it; on a database used for nothing else it is {alone[(ln, m)]}",
+                                 {"probe": "inherited service, layer-specific global negative responses", "first_layer": first,
+                                  "sequence": [[a, b.hex()] for a, b in seq[:seq.index((ln, m)) + 1]]})
+                    return
 
 
 def emit_layer(L):
@@ -328,6 +412,7 @@ def main(argv=None):
                     if r[0] == 0:
                         rqb = bytes(r[1])
                         msgs.append((rqb, None))
+                        msgs += [(m_, None) for m_ in reserved_set(s["req"]["params"], rqb)]
                 for c in s["pos"] + s["neg"]:
                     g = cc.Gen(rng)
                     v = g.values_for_params(c["params"], "valid")
@@ -343,8 +428,9 @@ def main(argv=None):
                         for p in c["params"]:
                             if p["kind"]["k"] == "nrc" and off < len(pdu):
                                 pdu[off] = p["kind"]["vs"][0]
-                            off += 1 if p["kind"]["k"] in ("coded", "nrc", "matchreq") else (p["kind"]["dop"]["dct"]["bl"] // 8)
+                            off += 1 if p["kind"]["k"] in ("coded", "nrc", "matchreq", "reserved") else (p["kind"]["dop"]["dct"]["bl"] // 8)
                         msgs.append((bytes(pdu), None))
+                        msgs += [(m_, None) for m_ in reserved_set(c["params"], bytes(pdu))]
                         if rqb:
                             msgs.append((bytes(pdu), rqb))
                         # the coding object reads its own encoding back with the values which were encoded
@@ -484,6 +570,8 @@ def main(argv=None):
                     ck.violation("implementation and model disagree on the service groups",
                                  {"layer": cc.to_json(L), "impl": r, "model": g, "broken": "correspondence service_groups"},
                                  found_input=False)
+    if not ck.replay:
+        inherited_gnr_probe(ck)
     ck.assumptions = ["messages matched by more than one coding object of the same service are reported as ambiguous by the "
                       "implementation (DecodeError); the oracle skips them"]
     ck.finish(
